@@ -14,6 +14,10 @@ C10.e  from_channel_manager_data, region from "the funded channel's monitor was 
        handle_in_flight_updates! to the stale-monitor test, with N <= 2 (3) in-flight updates and the real closures: what is
        queued (MonitorUpdatesComplete with the highest id, or one replay per missing update, in order), what stays in
        flight, and DangerousValue iff the channel is ahead of max(monitor id, highest in-flight id).
+C10.f  reconcile_pending_htlcs_with_monitor's matching closure: a queued forward is the monitor's HTLC iff it came in over the
+       same previous channel (funding outpoint) with the same HTLC id - ids are per channel, not per peer.
+C10.g  the closure deciding whether an HTLCIntercepted event must be regenerated at start-up: only an event for THAT
+       intercept id counts as already queued.
 C10.d  from_channel_manager_data, region of the stale-MONITOR test: DecodeError::DangerousValue iff the channel's latest
        unblocked update id is above max(monitor id, highest in-flight id).
 """
@@ -50,6 +54,8 @@ def run(S):
     in_flight_closures(S, D)
     stale_monitor(S, D)
     in_flight_region(S, D)
+    forward_match(S, D)
+    intercept_regeneration(S, D)
 
 
 LOG_STUBS = [
@@ -512,3 +518,112 @@ def in_flight_region(S, D):
         prove(S, ids[1], E, [z3.Not(z3.And(has, dup_entry))], z3.And(is_danger == (unblocked.t > top), is_ok_ == z3.Not(unblocked.t > top)),
               'the manager refuses to load (DangerousValue) exactly when its channel is ahead of everything its monitor can be brought to - the monitor\'s latest id and the highest in-flight update - and loads otherwise')
         S.witness(ids[2], E, incr + [has] + ([z3.Not(all_done)] if N else []), is_ok_)
+
+
+def _ident(v):
+    if getattr(v, 'alt', None) is not None:
+        c_, a, b = v.alt
+        return z3.If(X.zbool(c_), _ident(a), _ident(b))
+    if getattr(v, 'base', None) is None:
+        raise X.Unsupported('identity of %r' % (v,))
+    return z3.Int('ident.' + v.base)
+
+
+def _ident_eq_stubs(E):
+    def h_eq(E_, m, func, argv, guard, mem_, dty, caller):
+        a, b = _deref_all(E_, argv[0], mem_), _deref_all(E_, argv[1], mem_)
+        if isinstance(a, X.En) and a.name == 'Option':
+            pa = a.vs[1][0] if 1 in a.vs else None
+            pb = b.vs[1][0] if 1 in b.vs else None
+            same = _ident(_deref_all(E_, pa, mem_)) == _ident(_deref_all(E_, pb, mem_)) if pa is not None and pb is not None else z3.BoolVal(True)
+            return X.B(z3.And(X.zint(a.d) == X.zint(b.d), z3.Implies(X.zint(a.d) == 1, same)))
+        return X.B(_ident(a) == _ident(b))
+    E.models.insert(0, (re.compile(r'^<&*(?:Option<)?(?:\w+::)*(?:InterceptId|OutPoint|PublicKey|ChannelId)>? as PartialEq>::eq$'), h_eq))
+
+
+def _closure_env(E, f, mem, given):
+    """environment of a closure: one value per captured variable, `given[name]` where supplied, otherwise a fresh symbolic
+    value of the captured type (read off the debug info)"""
+    caps = {}
+    for nm, place in f.debug_all:
+        m = re.search(r'\(\*_1\)\.(\d+): (.*?)\)\)*$', str(place))
+        if m:
+            caps[int(m.group(1))] = (nm, m.group(2))
+    env = []
+    for i in range(len(caps)):
+        if i not in caps:
+            raise X.Unsupported('closure captures: %r' % (caps,))
+        nm, ty = caps[i]
+        env.append(given[nm] if nm in given else E.sym('captured.' + nm, ty, mem))
+    c = E.new_cell()
+    mem[c] = X.Clo(re.search(r'\{closure@[^{}]*\}', f.params[0][1]).group(0), env)
+    return X.Ref(c)
+
+
+def forward_match(S, D):
+    """C10.f"""
+    ids = ['C10.f.same_channel_and_htlc_id', 'C10.f.witness']
+    if all(S._skip(o) for o in ids):
+        return
+    ix = S.mir()
+    c = [i for i in range(len(ix.offsets)) if re.search(r'reconcile_pending_htlcs_with_monitor::\{closure#\d+\}\(_1: &\{closure@[^{}]*\}, _2: &(?:\w+::)*PendingAddHTLCInfo\) -> bool', ix.offsets[i][0])]
+    if len(c) != 1:
+        raise X.Unsupported('reconcile_pending_htlcs_with_monitor: %d closures matching a queued forward' % len(c))
+    f = ix.get(c[0])
+    E = S.engine(unwind=1)
+    mem = {}
+    _ident_eq_stubs(E)
+    PI = D.struct_fields('PendingAddHTLCInfo')
+    info_c, hid_c, op_c, node_c = [E.new_cell() for _ in range(4)]
+    f_id, m_id = E.sym('forward.prev_htlc_id', 'u64'), E.sym('monitor_htlc.htlc_id', 'u64')
+    mem[info_c] = X.Adt('PendingAddHTLCInfo', {PI.index('prev_htlc_id'): f_id, PI.index('prev_funding_outpoint'): X.Opaque('outpoint', base='forward.prev_funding_outpoint') if False else X.Adt('OutPoint', {}, base='forward.prev_funding_outpoint'),
+                                               PI.index('prev_counterparty_node_id'): X.Adt('PublicKey', {}, base='forward.prev_counterparty_node_id')}, base='forward')
+    mem[hid_c] = m_id
+    mem[op_c] = X.Adt('OutPoint', {}, base='monitor_htlc.outpoint')
+    peer_known = z3.Bool('monitor_htlc.counterparty_known')
+    mem[node_c] = X.En('Option', z3.If(peer_known, 1, 0), {1: [X.Adt('PublicKey', {}, base='monitor_htlc.counterparty_node_id')]})
+    env = _closure_env(E, f, mem, {'prev_hop_data__htlc_id': X.Ref(hid_c), 'prev_hop_data__outpoint': X.Ref(op_c), 'prev_hop_data__counterparty_node_id': X.Ref(node_c)})
+    rv = S.call(E, f, [env, X.Ref(info_c)], mem)
+    same_chan = z3.Int('ident.forward.prev_funding_outpoint') == z3.Int('ident.monitor_htlc.outpoint')
+    prove(S, ids[0], E, [], X.zbool(rv.t) == z3.And(same_chan, f_id.t == m_id.t),
+          'at start-up a queued forward is taken to be the HTLC a (closed channel\'s) monitor still shows - and is then dropped from the queue, the monitor resolving it - exactly when it came in over the same previous channel with the same HTLC id; HTLC ids are unique per channel only, so an HTLC of another channel of the same peer with the same id must stay queued',
+          bounds='the matching closure of reconcile_pending_htlcs_with_monitor; outpoints / node ids as abstract identities')
+    S.witness(ids[1], E, [], X.zbool(rv.t))
+
+
+def intercept_regeneration(S, D):
+    """C10.g"""
+    ids = ['C10.g.only_the_same_intercept_id', 'C10.g.witness']
+    if all(S._skip(o) for o in ids):
+        return
+    ix = S.mir()
+    EV = D.variant_index('Event', 'HTLCIntercepted')
+    c = []
+    for i in range(len(ix.offsets)):
+        h = ix.offsets[i][0]
+        if re.search(r'::from_channel_manager_data::\{closure#\d+\}\(', h) and re.search(r'_2: &\((?:\w+::)*Event, Option<(?:\w+::)*EventCompletionAction>\)\) -> bool', h):
+            f_ = ix.get(i)
+            # the closure that looks at the KIND of the queued event (the other one with this signature compares completion actions)
+            if any(st[0] == 'assign' and st[2][0] == 'discr' and re.search(r"\('field', \('deref', \('local', 2\)\), 0,", str(st[2][1])) for b, (bd, t) in f_.blocks.items() for st in bd):
+                c.append(f_)
+    if len(c) != 1:
+        raise X.Unsupported('from_channel_manager_data: %d closures looking for a queued HTLCIntercepted event' % len(c))
+    f = c[0]
+    E = S.engine(unwind=1)
+    mem = {}
+    _ident_eq_stubs(E)
+    kind = E.sym('queued_event.kind', 'u8')
+    nvar = len(D.enum_variants('Event'))
+    E.assume(z3.And(kind.t >= 0, kind.t < nvar))
+    ev_c, id_c, idref_c = [E.new_cell() for _ in range(3)]
+    payload = {EV: [X.Adt('InterceptId', {}, base='queued_event.intercept_id')] + [X.Opaque('event field %d' % k) for k in range(8)]}
+    mem[ev_c] = X.Tup([X.En('Event', kind.t, payload, base='queued_event'), X.Opaque('completion action')])
+    mem[id_c] = X.Adt('InterceptId', {}, base='held_htlc.intercept_id')
+    mem[idref_c] = X.Ref(id_c)
+    env = _closure_env(E, f, mem, {'id': X.Ref(idref_c)})
+    rv = S.call(E, f, [env, X.Ref(ev_c)], mem)
+    same = z3.Int('ident.queued_event.intercept_id') == z3.Int('ident.held_htlc.intercept_id')
+    prove(S, ids[0], E, [], X.zbool(rv.t) == z3.And(kind.t == EV, same),
+          'at start-up the HTLCIntercepted event of a held HTLC counts as still queued - and is therefore not generated again - only if an event for that very intercept id is in the persisted queue; an event for another held HTLC does not stand in for it (HTLCIntercepted is persisted until handled: every HTLC still held is announced again)',
+          bounds='the closure scanning the persisted events for a held HTLC; intercept ids as abstract identities, the queued event of any kind')
+    S.witness(ids[1], E, [], X.zbool(rv.t))
